@@ -99,6 +99,7 @@ struct IvHarness {
 		}
 		if(res) { res->distinct++; res->outcomes.insert("stored=" + std::to_string(__builtin_popcount(in_tree))); }
 	}
+	void final_check() {}
 	void canon(std::string &out) {
 		out.append((const char *)&w, sizeof w);
 		out.append((const char *)&in_tree, 4);
